@@ -161,6 +161,9 @@ func prefixMax(ity string) int {
 	return 1 << 30
 }
 
+// set while a top-level variable-length text field is generated
+var stretchText bool
+
 func (r *rng) varText(lenIty string, big bool) string {
 	n := 0
 	switch r.intn(8) {
@@ -177,8 +180,9 @@ func (r *rng) varText(lenIty string, big bool) string {
 	default:
 		n = r.intn(24)
 	}
-	if forceListLen > 0 {
-		// "large" values: variable-length text grows with the lists
+	if forceListLen > 0 && forceListLen <= 1200 && stretchText {
+		// "large" values: a variable-length text field grows with the lists (not the elements of a text list, and not
+		// when the lists are made very long to push byte offsets past 2^16)
 		n = forceListLen*10 + r.intn(8)
 		if n > prefixMax(lenIty) {
 			n = prefixMax(lenIty)
@@ -298,7 +302,9 @@ func (r *rng) genMessage(t *genType, o genOpts) any {
 				if o.midLists && forceListLen == 0 {
 					fv.SetString(r.midText(f.Len))
 				} else {
+					stretchText = true
 					fv.SetString(r.varText(f.Len, o.bigLists))
+					stretchText = false
 				}
 			}
 		case "ints":
